@@ -280,6 +280,29 @@ def gen_points(rng, T, i, big):
     return {'name': 'points-%d' % i, 'lines': lines, 'meta': {}}
 
 
+def gen_aabb_far_thin(rng, T, i, npts):
+    """a box FAR from the origin (centre 1e3 .. 1e7) that is THIN (or flat) along one axis, queried at points that are a few
+    half-extents off the box on that axis yet — relative to the centre's distance from the origin — within any fuzzy "is this the
+    centre?" test (seeded change c20e: `if (point.isApprox(centerPosition_)) return true`)"""
+    d = rng.choice([2, 3])
+    mag = rng.choice([1e3, 1e5, 1e6, 1e7]) if T == 'f64' else rng.choice([1e3, 1e5, 1e6])
+    c = [rnd(T, mag * rng.choice([1.0, -1.0]) * rng.uniform(0.5, 1.0)) for _ in range(d)]
+    h = [rnd(T, rng.uniform(10.0, 100.0)) for _ in range(d)]
+    k = rng.below(d)
+    # thin axis: far below the fuzzy tolerance (1e-5 / 1e-12 of |c|) but representable next to c[k]
+    ulp = abs(c[k]) * EPS[T]
+    h[k] = rng.choice([0.0, rnd(T, 8 * ulp), rnd(T, 64 * ulp), rnd(T, 1e-7 * mag if T == 'f64' else 4e-6 * mag)])
+    lines = ['aabb.new %s %d %s %s' % (T, d, toks(T, c), toks(T, h)), 'aabb.toint']
+    for _ in range(npts):
+        p = [rnd(T, c[j] + rng.uniform(-0.5, 0.5) * h[j]) for j in range(d)]
+        off = rng.choice([2.0, 5.0, 16.0, 50.0]) * max(h[k], 4 * ulp) * rng.choice([1.0, -1.0])
+        p[k] = rnd(T, c[k] + off)
+        if rng.chance(0.2):
+            p[k] = c[k]                      # the centre plane itself: inside
+        lines.append('aabb.in ' + toks(T, p))
+    return {'name': 'aabb-far-thin-%d' % i, 'lines': lines, 'meta': {}}
+
+
 def gen_obb_near_exact(rng, T, i, npts):
     """oriented boxes whose rotation is an EXACT one (identity / signed axis permutation) composed with a tiny rotation (1e-13 .. 1e-4
     rad): the matrix differs from the exact one by less than any fuzzy `isIdentity()` / `isApprox()` tolerance, yet on a long thin
@@ -331,6 +354,8 @@ def gen_cases(rng, tier):
         cases.append(gen_interval(rng, T, i, npts))
         if i % 4 == 0:
             cases.append(gen_obb_near_exact(rng, T, i, 12))
+        if i % 5 == 0:
+            cases.append(gen_aabb_far_thin(rng, T, i, 12))
     for i in range(60 if quick else 1200):
         T = rng.choice(['f64', 'f32'])
         cases.append(gen_points(rng, T, i, big=(i % 10 == 0)))
